@@ -8,10 +8,14 @@ CONSTANTS
   DieAt <- MDie
   Assign <- NoAssign
   Ret <- MRet
+  MergerDies = 0
+  RecSt = "none"
+  RecNrec = 0
 INVARIANT ExactlyOnce
 INVARIANT ResultIsWholeStream
 INVARIANT RaiseKeepsOthers
 INVARIANT DeathNeverReturns
+INVARIANT MergerDeathNeverReturns
 INVARIANT QueueBounded
 PROPERTY Termination
 CHECK_DEADLOCK TRUE
